@@ -96,6 +96,57 @@ def elem_offset(f, ptr, arr_alloca, esize):
     return None
 
 
+def _member_names(P, sid, depth=0):
+    out = set()
+    for (n, off, size, mt) in (P.di_members(sid) or []):
+        out.add(n)
+        t = P.di_strip(mt)
+        if t and t["kind"] in ("struct", "union") and depth < 2:
+            out |= _member_names(P, mt, depth + 1)
+    return out
+
+
+def _src_fields(P, f, o, d=0, seen=None):
+    """'Struct.field' names of the entity fields an operand's value is copied from (through casts, locals, strdup and repo helpers' arguments)"""
+    seen = set() if seen is None else seen
+    out = set()
+    if o.get("k") != "inst" or d > 10 or o["id"] in seen:
+        return out
+    seen.add(o["id"])
+    o2 = rules.resolve_local(f, o)
+    if o2 != o:
+        return _src_fields(P, f, o2, d + 1, seen)
+    i = f.insts[o["id"]]
+    if i.op == "load":
+        if i["ptr"].get("k") == "inst":
+            fp = rules.field_path_of_ptr(P, f, i["ptr"])
+            if fp and not fp.startswith("_G"):
+                out.add(fp)
+            elif fp and fp.startswith("_GString"):
+                out |= _src_fields(P, f, i["ptr"], d + 1, seen)
+            a = f.insts[i["ptr"]["id"]]
+            if a.op == "alloca":
+                for s_ in f.all_insts():
+                    if s_.op == "store" and s_["ptr"].get("k") == "inst" and s_["ptr"]["id"] == a.id:
+                        out |= _src_fields(P, f, s_["val"], d + 1, seen)
+        return out
+    if i.op == "getelementptr":
+        return _src_fields(P, f, i["base"], d + 1, seen)
+    if i.op == "call":
+        if i.callee in ("strdup", "g_strdup") or (i.callee in P.functions and P.functions[i.callee].blocks and P.functions[i.callee].internal):
+            for a in i.args:
+                out |= _src_fields(P, f, a, d + 1, seen)
+        return out
+    if i.op == "phi":
+        for _, v in i["incoming"]:
+            out |= _src_fields(P, f, v, d + 1, seen)
+        return out
+    for k in ("a", "b", "c"):
+        if k in i.d and isinstance(i[k], dict):
+            out |= _src_fields(P, f, i[k], d + 1, seen)
+    return out
+
+
 def run(chk, w):
     P = w.P
     gs = getters(w)
@@ -445,6 +496,40 @@ def run(chk, w):
     chk.floor("counted_id_lists", ncnt, 8)
 
     # ---- FREE
+    # ---- NAME: a result field is filled from the entity's field of the same name when the entity has one
+    chk.rule("C17-NAME", "a result field copied from an entity is copied from the entity's member of the same name whenever the entity has such a member "
+                         "(snapshot and single getter then report the same value)")
+    nname = 0
+    for f in P.repo_functions():
+        if not f.blocks or not f.relfile.startswith("src/highlevel/bidib_highlevel_getter"):
+            continue
+        for st in f.all_insts():
+            if st.op != "store" or st["ptr"].get("k") != "inst":
+                continue
+            dp = rules.field_path_of_ptr(P, f, st["ptr"])
+            if not dp:
+                continue
+            srcs = _src_fields(P, f, st["val"])
+            if not srcs:
+                continue
+            nname += 1
+            dn = dp.split(".")[-1]
+            if dn in {x.split(".")[-1] for x in srcs}:
+                chk.ok("C17-NAME", 1, None)
+                continue
+            # does an entity the value comes from have a member (possibly nested) called like the destination?
+            cand = None
+            for x in srcs:
+                sid = P.di_struct_by_name(x.split(".")[0])
+                if sid is not None and dn in _member_names(P, sid):
+                    cand = x
+            if cand is None:
+                chk.ok("C17-NAME", 1, None)
+            else:
+                chk.violation("C17-NAME", f.name, "%s<-%s" % (dp, cand), st.loc(), "%s is filled from %s although %s has a member '%s': the result reports another field's value" % (
+                    dp, cand, cand.split(".")[0], dn))
+    chk.floor("named_copies", nname, 40)
+
     # ---- NULL ids
     from .. import nullparam
     nullparam.run(chk, P, "C17-NULL", set(w.api), lambda f_: f_.relfile.startswith("src/highlevel/bidib_highlevel_getter"), 30)
